@@ -263,11 +263,11 @@ add("C16",
     level_text="A 12-step history (init, three backups, key add/delete, forget, prune mark / delete+repack-all / default options, config change, copy-into) runs on a hot/cold pair of recording stores and on a single store. "
                "After every mutating backend call the (cold,hot) pair is checked: every key, snapshot, index and tree-pack file the cold store lists is in the hot store byte-identically and the hot store holds no data pack; after each step the cold store "
                "equals the single store canonically (pack layout options given explicitly) and all snapshots read back to the source on both. With a cold store that fails every pack read not preceded by warm_up of that id in the same command, "
-               "restore, prune with repacking and repair-index --read-all must succeed with zero un-warmed reads. Every non-empty subset of the first 9 (quick) / 12 (thorough) hot files is removed and repair_hotcold_except_packs (+ open_only_cold/init_hot when the hot config is gone) + repair_hotcold_packs must restore the invariant and all snapshots.",
+               "restore, prune with repacking and repair-index --read-all must succeed with zero un-warmed reads. Every non-empty subset of the first 9 (quick) / 12 (thorough) hot files (file types interleaved, so that config, snapshot, index and pack files are all among them) is removed - once as it is and once with a file that only the hot store holds (a second copy of an index file: the repair then has work in both directions for one file type) - and repair_hotcold_except_packs (+ open_only_cold/init_hot when the hot config is gone) + repair_hotcold_packs must restore the invariant and all snapshots.",
     level_note="Single linearisation per command (the completion-order dimension is C03/C13's); evaluations = crash states + removed subsets.",
     shards={"quick": 16, "thorough": 16},
     rule="crash states of the (cold,hot) pair after every mutating call of a 12-step history + every non-empty subset of hot files removed before repair; non-trivial = distinct canonical (cold,hot) states and distinct repaired subsets",
-    require_counts=["cold_restores", "cold_partial_restores", "cold_prune_repacks", "cold_repair_index", "cold_repair_index_dry", "crash_states", "hot_subsets_removed"],
+    require_counts=["cold_restores", "cold_partial_restores", "cold_prune_repacks", "cold_repair_index", "cold_repair_index_dry", "crash_states", "hot_subsets_removed", "repairs_with_a_hot_only_file"],
     )
 
 add("C19",
@@ -306,7 +306,7 @@ add("C01",
     level_text="Slices, each enumerated completely: S1 every tree with <=4 (quick) / <=5 (thorough) nodes over {dir, file, symlink} and names a,b,c; S2 one file under every legal single-byte name (253), every pair over a hostile set "
                "(backslash, quote, newline, 0x80, 0xff, e-acute, space, dot) and long/unicode/escape-like/invalid-UTF-8 names; S3 the configuration grid {repo v1, v2} x compression {unset, 0, -7, (1, 22)} x seven chunkers (rabin default, 4096/4096/16384, 64/64/256; fixed 1, 2, 4096, 8000) x three pack sizes, "
                "each with files whose lengths sit on the chunker's min/avg/max boundaries under four fills and a file byte-identical to a sibling directory's tree; S4 symlink targets (relative, absolute, dangling, non-UTF-8, 1000 bytes), hardlink pair and triple, nesting depth 1..40, 100 files in one directory, "
-               "modes incl. setuid/setgid/sticky, mtimes 0, 1 ns, 2200, negative. For every case the real backup is read back by ls+dump, by an independent decoder, by read_file_at over a grid of offsets/lengths around blob boundaries, check --read-data must be clean, "
+               "modes incl. setuid/setgid/sticky, mtimes 0, 1 ns, 2200, negative. For every case the real backup is read back by ls+dump (every file dumped into a Vec and into a writer that accepts 7 bytes per call; both must receive the same bytes), by an independent decoder, by read_file_at over a grid of offsets/lengths around blob boundaries, check --read-data must be clean, "
                "and the snapshot is restored into an empty tmpfs directory and compared by lstat (type, bytes, link target, mode, mtime ns, shared inodes).",
     level_note="Metadata comes from the in-memory source seam (the file-system walker of the source side is not exercised); file sizes are bounded by 3*max+17 bytes of the tiny chunkers / 27 KiB.",
     shards={"quick": 16, "thorough": 16},
